@@ -26,12 +26,12 @@ struct Init {
             p.technique = "deterministic simulation: seeded search over programs x schedules on a simulated MPI job, reference-model + independent-decoder oracles";
             std::string sid = id;
             p.gen = [gpf, sid](uint64_t seed, bool th) { return gen_program(seed, gpf(th), sid); };
-            p.check = [](Program &q) { RunOpts o; return run_program(q, o); };
+            p.check = [sid](Program &q) { RunOpts o; o.check_usage = (sid == "C13"); return run_program(q, o); };
             p.nontrivial = nt; reg(p);
         };
         auto has_kind = [](const Program &q, int kind) { for (auto &op : q.ops) if (!op.skip && op.kind == kind) return true; return false; };
         simple("C02", "one seed = one program posting iput/iget/bput requests (all forms incl. varn, flexible buffers) on 1..6 ranks with different request counts per rank, completed by wait/wait_all in random partitions (explicit id lists in random order, NC_REQ_ALL/GET/PUT, NULL and unknown ids, cancel), knobs NC_REQUEST_CHUNK/abuf table size randomised; non-trivial = at least one request completed by a wait and data transferred; distinct by program shape x interleaving",
-               [](bool th) { GenParams g; g.nonblocking = true; g.max_np = th ? 8 : 6; g.max_data_ops = th ? 30 : 18; g.knobs = true; g.hints = true; g.big = th; return g; },
+               [](bool th) { GenParams g; g.nonblocking = true; g.iget_overlap_strict = true; g.max_np = th ? 8 : 6; g.max_data_ops = th ? 30 : 18; g.knobs = true; g.hints = true; g.big = th; return g; },
                [has_kind](const Program &q, const RunResult &r) { return r.completed && has_kind(q, OP_WAIT) && r.st.bytes_written > 0; });
         simple("C03", "one seed = one schema-heavy program (UTF-8 names, attributes of every type incl. zero length, fixed and record variables, _enddef alignment arguments, alignment hints, redefinitions, data-mode metadata updates) with a raw-image checkpoint after every op: strict header decode by the independent codec, layout rules, library reports vs file; non-trivial = at least 2 checkpoints decoded a file with >= 1 variable",
                [](bool th) { GenParams g; g.checkpoint_each = true; g.utf8_names = true; g.align_args = true; g.hints = true; g.redef = true; g.meta_heavy = true; g.max_np = 4; g.max_data_ops = th ? 14 : 8; g.multi_file = th; return g; },
